@@ -8,6 +8,11 @@
 (*   resp   the node is about to answer it (page served, ok / error, next) *)
 (*   row    the consumer was handed a row                                  *)
 (*   end    the iteration ended (normally / with which error, PageState()) *)
+(*          or the caller stopped after `stop` rows and closed it; qtok =  *)
+(*          the paging state then found in the caller's Query value        *)
+(*                                                                         *)
+(* Every execution of a re-executed Query value is a trace of its own and  *)
+(* is judged like a fresh iteration of the same scenario.                  *)
 (*                                                                         *)
 (* Two things are evaluated by TLC at every step of every trace:           *)
 (*                                                                         *)
@@ -36,13 +41,15 @@ VARIABLES l,      \* next log line
           cnt     \* [traces, conforming, steps]
 tvars == <<scen, state, l, ob, ms, viol, out, cnt>>
 
-Dummy == [pages |-> <<0>>, q |-> 0, kind |-> "Scan", fail |-> 0, mode |-> "auto", start |-> 0]
-EmptyObs == [reqs |-> <<>>, tmpls |-> <<>>, rows |-> <<>>, ended |-> "no", err |-> 0, exposed |-> 0]
+TracePlans == {<<-1>>}      \* (Plans is not used here: the plan entry of each execution comes with its begin event)
+Dummy == [pages |-> <<0>>, q |-> 0, kind |-> "Scan", fail |-> 0, mode |-> "auto", start |-> 0, plan |-> <<-1>>]
+EmptyObs == [reqs |-> <<>>, tmpls |-> <<>>, rows |-> <<>>, ended |-> "no", err |-> 0, exposed |-> 0, qtok |-> -2]
 
 TInit == /\ l = 1 /\ scen = Dummy /\ state = InitState(Dummy) /\ ob = EmptyObs /\ ms = {}
          /\ viol = {} /\ out = <<>> /\ cnt = [traces |-> 0, conforming |-> 0, steps |-> 0]
 
-ScenOf(e) == [pages |-> e.pages, q |-> e.q, kind |-> e.kind, fail |-> e.fail, mode |-> e.mode, start |-> e.start]
+ScenOf(e) == [pages |-> e.pages, q |-> e.q, kind |-> e.kind, fail |-> e.fail, mode |-> e.mode, start |-> e.start,
+              plan |-> <<e.stop>>]
 
 ObsAfter(o, e) ==
   CASE e.ev = "req" -> [o EXCEPT !.reqs = Append(@, e.tok),
@@ -51,7 +58,7 @@ ObsAfter(o, e) ==
     [] e.ev = "row" -> [o EXCEPT !.rows = Append(@, <<e.page, e.idx>>)]
     [] e.ev = "end" -> [o EXCEPT !.ended = CASE e.normal = 1 -> "normal" [] e.normal = 0 -> "error"
                                               [] e.normal = 3 -> "panic" [] OTHER -> "no",   \* 2: stopped by the harness (runaway)
-                                 !.err = e.errpage,
+                                 !.err = e.errpage, !.qtok = e.qtok,
                                  !.exposed = e.exposed]
     [] OTHER -> o
 
@@ -73,6 +80,7 @@ EvSucc(tc, x, e, nrep) ==
          IF e.normal = 1
          THEN {y \in (IF tc.kind = "SliceMap" THEN (IF x.st = "done" /\ nrep = Len(x.rows) THEN {x} ELSE {})
                       ELSE EndF(tc, x)) : tc.mode = "manual" => y.exposed = e.exposed}
+         ELSE IF e.normal = 2 THEN AbandonF(tc, x)       \* the caller stopped and closed the iterator
          ELSE (IF e.normal = 0 /\ x.st = "failed" /\ x.err = e.errpage THEN {x} ELSE {})
     [] OTHER -> {}
 
